@@ -23,6 +23,7 @@ PINNED = ['NoRaise', 'RegistryTotal', 'SameClassTree', 'AttrsKept', 'DictUntouch
           'Idempotent']
 
 _SCHEMA = {}
+AUDIT_CLASSES = ('EmpiricalBase', 'Network', 'ExtendedLSR', 'OmkmBEP')   # added by the quantifier audit
 
 
 def _full(case):
@@ -133,7 +134,10 @@ def _pick_cases(ctx, trees, lives):
                     'seed': rnd.randrange(1 << 30),
                     # every other case draws falsy members (0, 0.0, -0.0, False, '', {}, []) for its
                     # scalar slots: all of them / each with probability 1/2
-                    'falsy': {1: 'all', 3: 'half'}.get(n % 4)})
+                    'falsy': {1: 'all', 3: 'half', 7: 'half'}.get(n % 8),
+                    # flavour of the other values: NumPy scalars/arrays, optional arguments at None,
+                    # extreme doubles with NaN/inf
+                    'flavor': {2: 'numpy', 4: 'none', 5: 'extreme'}.get(n % 8)})
     # objects that do not come from the schema enumeration: float-built LSR, unnamed species,
     # the repository's own example objects
     for j, name in enumerate(sorted(lib_c11.EXTRAS)):
@@ -194,7 +198,9 @@ def run(ctx):
     pending = []                 # violations, reported below with one of each kind first
     edges = set()
     timing['execute_s'] = timing['validate_s'] = 0.0
-    n_lines = n_get = n_attr = n_judged = n_falsy = 0
+    n_lines = n_get = n_attr = n_judged = n_falsy = n_shared = n_fallback = 0
+    by_flavor = {}
+    class_cases = {}
     BATCH = 500                  # bounds the memory held by recorded events
     for b0 in range(0, len(cases), BATCH):
         batch = cases[b0:b0 + BATCH]
@@ -208,17 +214,27 @@ def run(ctx):
                 raise core.MachineryError(res[1])
             events, mism, obs = res
             observed.append(obs)
+            n_shared += 1 if obs.get('_shared') else 0
+            n_fallback += obs.get('_fallbacks', 0)
+            if case.get('flavor'):
+                by_flavor[case['flavor']] = by_flavor.get(case['flavor'], 0) + 1
             ctx.evaluated()
             if any(e['ev'] == 'node' or (e['ev'] == 'call' and e['raised']) for e in events):
                 ctx.nontrivial(json.dumps([case.get('tree_s', case.get('tree', case.get('extra'))), case['life']],
                                           sort_keys=True))
             if 'tree_s' in case or 'tree' in case:
-                edges |= _classes(_full(case)['tree'])
+                cl = _classes(_full(case)['tree'])
+                edges |= cl
+                for c in AUDIT_CLASSES:
+                    if c in cl:
+                        class_cases[c] = class_cases.get(c, 0) + 1
             seen = set()
             for m in mism:
                 tags = _replay_tags(m['tags'], m['call'])
                 if 'extra' in case:
                     tags['extra'] = case['extra']
+                if case.get('flavor'):
+                    tags['flavor'] = case['flavor']
                 key = json.dumps(tags, sort_keys=True)
                 if key not in seen:
                     seen.add(key)
@@ -247,6 +263,8 @@ def run(ctx):
             base, tags = _tags_for(ev, clause)
             if 'extra' in cases[tid]:
                 tags['extra'] = cases[tid]['extra']
+            if cases[tid].get('flavor'):
+                tags['flavor'] = cases[tid]['flavor']
             by_case.setdefault((tid, base, json.dumps(tags, sort_keys=True)), []).append(idx)
         for (tid, base, tg), idxs in sorted(by_case.items()):
             ev = evs_of[tid][idxs[0]]
@@ -271,6 +289,20 @@ def run(ctx):
     ctx.coverage['getter_comparisons'] = n_get
     ctx.coverage['getter_comparisons_judged'] = n_judged       # the rest sat above an already reported loss
     ctx.coverage['falsy_non_None_attribute_values_compared'] = n_falsy
+    ctx.coverage['cases_with_shared_subobjects'] = n_shared
+    ctx.coverage['cases_by_value_flavor'] = by_flavor
+    ctx.coverage['constructor_refusals_rebuilt_with_plain_values'] = n_fallback
+    newly = {c: class_cases.get(c, 0) for c in AUDIT_CLASSES}
+    ctx.coverage['cases_per_audit_class'] = newly
+    if ctx.replay_case is None:
+        if not n_shared:
+            raise core.MachineryError('no case with a shared sub-object: vacuous')
+        for fl in ('numpy', 'none', 'extreme'):
+            if not by_flavor.get(fl):
+                raise core.MachineryError('no case with %s values: vacuous' % fl)
+        for c, n in newly.items():
+            if not n:
+                raise core.MachineryError('class %s never exercised: vacuous' % c)
     if ctx.replay_case is None and not n_falsy:
         raise core.MachineryError('no falsy (0, 0.0, False, "", [], {}) attribute value was compared: vacuous')
     if n_get and not n_judged:
